@@ -487,7 +487,6 @@ func (c *Ctx) sendCommandImpls() []*ssa.Function {
 	return out
 }
 
-
 // wrapperInner: if every store to the field with selector sel is the result of
 // backoff.WithContext(x, ·), return x's selector.
 func (c *Ctx) wrapperInner(sel string) (string, bool) {
